@@ -1,13 +1,853 @@
 //go:build verif
 
-// placeholder: harness c16 is being written
+// Harness c16: SLH-DSA (internal/signature/slhdsa + signature/slhdsa) against the independent
+// FIPS 205 implementation in Lean (property C16).
+//
+//   - key generation from seeds: byte-identical secret/public keys            (G slhkeygen)
+//   - deterministic and explicitly hedged signatures: byte-identical          (G slhsign)
+//   - Go-made signatures (Sign, SignDeterministic, tink Signer, TINK prefix)  (G slhverify = 1)
+//   - mutation streams in every structural region / lengths / message / key   (G slhverify = 0)
+//   - toInt / toByte / base_2^b and the digest split of sign and verify       (G slhtoint ...)
+//
+// Every line is a deterministic function of the seed: crypto/rand is replaced by hlib's tape and is
+// only read from the main goroutine; the worker pool only runs randomness-free signing calls.
 package main
 
-import "github.com/tink-crypto/tink-go/v2/internal/verifharness/hlib"
+import (
+	"bytes"
+	"crypto/rand"
+	"fmt"
+	"os"
+	"runtime"
+	"runtime/debug"
+	"strconv"
+	"strings"
+	"sync"
+	"time"
+
+	"github.com/tink-crypto/tink-go/v2/insecuresecretdataaccess"
+	islh "github.com/tink-crypto/tink-go/v2/internal/signature/slhdsa"
+	"github.com/tink-crypto/tink-go/v2/internal/verifharness/hlib"
+	"github.com/tink-crypto/tink-go/v2/keyset"
+	"github.com/tink-crypto/tink-go/v2/signature"
+	slhkey "github.com/tink-crypto/tink-go/v2/signature/slhdsa"
+	"github.com/tink-crypto/tink-go/v2/tink"
+)
+
+// ---------- parameter table (FIPS 205 Table 2), written independently of the library ----------
+
+type pset struct {
+	name                 string
+	p                    *islh.Params
+	shake, fast          bool
+	n, h, d, hp, a, k, m int
+}
+
+func (s *pset) wlen() int     { return 2*s.n + 3 } // len = len1 + len2 for lg w = 4
+func (s *pset) forsSize() int { return s.k * (1 + s.a) * s.n }
+func (s *pset) htOff() int    { return s.n + s.forsSize() }
+func (s *pset) xmssSize() int { return (s.wlen() + s.hp) * s.n }
+func (s *pset) sigLen() int   { return s.htOff() + s.d*s.xmssSize() }
+func (s *pset) mdLen() int    { return (s.k*s.a + 7) / 8 }
+func (s *pset) short() string { return strings.TrimPrefix(s.name, "SLH-DSA-") }
+func (s *pset) hashType() slhkey.HashType {
+	if s.shake {
+		return slhkey.SHAKE
+	}
+	return slhkey.SHA2
+}
+func (s *pset) sigType() slhkey.SignatureType {
+	if s.fast {
+		return slhkey.FastSigning
+	}
+	return slhkey.SmallSignature
+}
+
+var sets = []*pset{
+	{"SLH-DSA-SHA2-128s", islh.SLH_DSA_SHA2_128s, false, false, 16, 63, 7, 9, 12, 14, 30},
+	{"SLH-DSA-SHAKE-128s", islh.SLH_DSA_SHAKE_128s, true, false, 16, 63, 7, 9, 12, 14, 30},
+	{"SLH-DSA-SHA2-128f", islh.SLH_DSA_SHA2_128f, false, true, 16, 66, 22, 3, 6, 33, 34},
+	{"SLH-DSA-SHAKE-128f", islh.SLH_DSA_SHAKE_128f, true, true, 16, 66, 22, 3, 6, 33, 34},
+	{"SLH-DSA-SHA2-192s", islh.SLH_DSA_SHA2_192s, false, false, 24, 63, 7, 9, 14, 17, 39},
+	{"SLH-DSA-SHAKE-192s", islh.SLH_DSA_SHAKE_192s, true, false, 24, 63, 7, 9, 14, 17, 39},
+	{"SLH-DSA-SHA2-192f", islh.SLH_DSA_SHA2_192f, false, true, 24, 66, 22, 3, 8, 33, 42},
+	{"SLH-DSA-SHAKE-192f", islh.SLH_DSA_SHAKE_192f, true, true, 24, 66, 22, 3, 8, 33, 42},
+	{"SLH-DSA-SHA2-256s", islh.SLH_DSA_SHA2_256s, false, false, 32, 64, 8, 8, 14, 22, 47},
+	{"SLH-DSA-SHAKE-256s", islh.SLH_DSA_SHAKE_256s, true, false, 32, 64, 8, 8, 14, 22, 47},
+	{"SLH-DSA-SHA2-256f", islh.SLH_DSA_SHA2_256f, false, true, 32, 68, 17, 4, 9, 35, 49},
+	{"SLH-DSA-SHAKE-256f", islh.SLH_DSA_SHAKE_256f, true, true, 32, 68, 17, 4, 9, 35, 49},
+}
+
+// sibling returns the set with the same sizes and the other hash family.
+func sibling(i int) *pset { return sets[i^1] }
+
+// ---------- keys ----------
+
+type keyMat struct {
+	set      *pset
+	sk       *islh.SecretKey
+	pk       *islh.PublicKey
+	skB, pkB []byte
+	origin   string // "seeds" (slhKeygenInternal hook) or "keyset" (KeyGen through keyset.Manager)
+}
+
+func fmtMsg(ctx, msg []byte) []byte {
+	out := []byte{0, byte(len(ctx))}
+	out = append(out, ctx...)
+	return append(out, msg...)
+}
+
+func b01(err error) string {
+	if err != nil {
+		return "0"
+	}
+	return "1"
+}
+
+// ---------- signing jobs ----------
+
+type sigJob struct {
+	set      *pset
+	key      *keyMat
+	msg, ctx []byte
+	mode     string // api-hedged | api-det | hook-hedged | tink-T | tink-R
+	addrnd   []byte // hook-hedged
+	id       uint32 // tink-T
+	raw      []byte // signature without the tink prefix
+	full     []byte // what the tink Signer returned
+	verifier tink.Verifier
+	signer   tink.Signer
+	prefix   []byte
+	err      error
+	byteEq   bool // also compare byte for byte with G slhsign
+	mutate   bool // run the mutation stream on this signature
+}
+
+func (j *sigJob) needsRand() bool { return j.mode == "api-hedged" || strings.HasPrefix(j.mode, "tink") }
+
+func tinkParams(s *pset, v slhkey.Variant) *slhkey.Parameters {
+	ps, err := slhkey.NewParameters(s.hashType(), 4*s.n, s.sigType(), v)
+	if err != nil {
+		panic(fmt.Sprintf("slhdsa.NewParameters(%s): %v", s.name, err))
+	}
+	return ps
+}
+
+// prepare builds the key objects of a tink job (main goroutine: HandleOf may draw a key id).
+func (j *sigJob) prepare() {
+	if !strings.HasPrefix(j.mode, "tink") {
+		return
+	}
+	v := slhkey.VariantTink
+	if j.mode == "tink-R" {
+		v = slhkey.VariantNoPrefix
+		j.id = 0
+	}
+	priv, err := slhkey.NewPrivateKey(hlib.Secret(j.key.skB), j.id, tinkParams(j.set, v))
+	if err != nil {
+		j.err = err
+		return
+	}
+	kh, err := hlib.HandleOf(priv)
+	if err != nil {
+		j.err = err
+		return
+	}
+	if j.signer, err = signature.NewSigner(kh); err != nil {
+		j.err = err
+		return
+	}
+	pub, err := kh.Public()
+	if err != nil {
+		j.err = err
+		return
+	}
+	if j.verifier, err = signature.NewVerifier(pub); err != nil {
+		j.err = err
+		return
+	}
+	j.prefix = priv.OutputPrefix()
+}
+
+// run makes the signature; the rand-consuming modes read crypto/rand exactly once, first thing.
+func (j *sigJob) run() {
+	if j.err != nil {
+		return
+	}
+	switch j.mode {
+	case "api-hedged":
+		j.raw, j.err = j.key.sk.Sign(j.msg, j.ctx)
+	case "api-det":
+		j.raw, j.err = j.key.sk.SignDeterministic(j.msg, j.ctx)
+	case "hook-hedged":
+		j.raw = j.key.sk.VerifSignInternal(fmtMsg(j.ctx, j.msg), j.addrnd)
+	case "tink-T", "tink-R":
+		j.full, j.err = j.signer.Sign(j.msg)
+		if j.err != nil {
+			return
+		}
+		if !bytes.HasPrefix(j.full, j.prefix) {
+			j.err = fmt.Errorf("signature does not start with the key's output prefix")
+			return
+		}
+		j.raw = j.full[len(j.prefix):]
+	}
+}
+
+// seqReader replaces crypto/rand.Reader. Reads are served from the seeded stream; every read is
+// signalled so that the scheduler can start the next rand-consuming job only after the previous one
+// has drawn its bytes: the assignment of random bytes to jobs is then independent of scheduling.
+type seqReader struct {
+	mu    sync.Mutex
+	rng   *hlib.Rng
+	reads int
+	sig   chan struct{}
+}
+
+func (r *seqReader) count() int {
+	r.mu.Lock()
+	defer r.mu.Unlock()
+	return r.reads
+}
+
+func (r *seqReader) Read(p []byte) (int, error) {
+	r.mu.Lock()
+	copy(p, r.rng.Bytes(len(p)))
+	r.reads++
+	r.mu.Unlock()
+	select {
+	case r.sig <- struct{}{}:
+	default:
+	}
+	return len(p), nil
+}
 
 func main() {
-	o := hlib.Open("c16")
+	o := hlib.Open("C16")
 	defer o.Close()
-	o.Emit("G slhtoint 0102", "258", true)
-	o.Emit("G derenc 5 300", "30070201050202012c", true)
+	seed := *hlib.FlagSeed
+	rng := hlib.NewRng(seed, "c16")
+	rd := &seqReader{rng: hlib.NewRng(seed, "c16-rand"), sig: make(chan struct{}, 1)}
+	rand.Reader = rd
+	debug.SetGCPercent(400)
+	t0 := time.Now()
+	lap := func(what string) {
+		if os.Getenv("VERIF_TIMING") != "" {
+			fmt.Fprintf(os.Stderr, "c16: %-28s %6.2fs\n", what, time.Since(t0).Seconds())
+		}
+	}
+
+	// ---------- 0. the library's parameter table vs FIPS 205 Table 2 ----------
+	for _, s := range sets {
+		want := [9]uint32{uint32(s.n), uint32(s.h), uint32(s.d), uint32(s.hp), uint32(s.a), uint32(s.k), 4, uint32(s.m), uint32(s.wlen())}
+		if got := s.p.VerifDims(); got != want {
+			o.Violate("%s: parameters n,h,d,h',a,k,lgw,m,len = %v, FIPS 205 Table 2 says %v", s.name, got, want)
+		}
+		if s.p.PublicKeyLength() != 2*s.n || s.p.SecretKeyLength() != 4*s.n {
+			o.Violate("%s: key lengths %d/%d", s.name, s.p.PublicKeyLength(), s.p.SecretKeyLength())
+		}
+	}
+
+	// ---------- 1. support functions ----------
+	support(o, rng)
+	lap("support functions")
+
+	// ---------- 2. keys ----------
+	keys := make([][]*keyMat, len(sets))
+	for si, s := range sets {
+		nSeeds := hlib.N(1, 4)
+		if s.fast {
+			nSeeds = hlib.N(2, 12)
+		}
+		o.Case()
+		for i := 0; i < nSeeds; i++ {
+			skSeed, skPrf, pkSeed := rng.Bytes(s.n), rng.Bytes(s.n), rng.Bytes(s.n)
+			if i == 3 { // degenerate seeds
+				skSeed, skPrf, pkSeed = make([]byte, s.n), bytes.Repeat([]byte{0xff}, s.n), make([]byte, s.n)
+			}
+			sk, pk := s.p.VerifKeygenInternal(skSeed, skPrf, pkSeed)
+			km := &keyMat{s, sk, pk, sk.Encode(), pk.Encode(), "seeds"}
+			keys[si] = append(keys[si], km)
+			o.Count("keygen/seeds/" + s.short())
+			o.Emit(fmt.Sprintf("!G slhkeygen %s %s %s %s", s.name, hlib.Tok(skSeed), hlib.Tok(skPrf), hlib.Tok(pkSeed)),
+				"ok "+hlib.Tok(km.skB)+" "+hlib.Tok(km.pkB), true)
+			if !bytes.Equal(km.skB[:3*s.n], append(append(append([]byte{}, skSeed...), skPrf...), pkSeed...)) || !bytes.Equal(km.skB[2*s.n:], km.pkB) {
+				o.Violate("%s: secret key is not skSeed|skPrf|pkSeed|pkRoot or public key is not pkSeed|pkRoot", s.name)
+			}
+		}
+		// a key made by the public key-generation path (KeyGen via keyset.Manager, randomness from the tape)
+		nKs := hlib.N(1, 2)
+		for i := 0; i < nKs; i++ {
+			variant := slhkey.VariantTink
+			if (si+i)%2 == 1 {
+				variant = slhkey.VariantNoPrefix
+			}
+			mgr := keyset.NewManager()
+			id, err := mgr.AddNewKeyFromParameters(tinkParams(s, variant))
+			if err != nil {
+				panic(err)
+			}
+			if err := mgr.SetPrimary(id); err != nil {
+				panic(err)
+			}
+			kh, err := mgr.Handle()
+			if err != nil {
+				panic(err)
+			}
+			e, err := kh.Primary()
+			if err != nil {
+				panic(err)
+			}
+			priv, ok := e.Key().(*slhkey.PrivateKey)
+			if !ok {
+				panic("keyset entry is not an SLH-DSA private key")
+			}
+			skB := priv.PrivateKeyBytes().Data(insecuresecretdataaccess.Token{})
+			pubK, _ := priv.PublicKey()
+			pkB := pubK.(*slhkey.PublicKey).KeyBytes()
+			sk, err := s.p.DecodeSecretKey(skB)
+			if err != nil {
+				panic(err)
+			}
+			pk, err := s.p.DecodePublicKey(pkB)
+			if err != nil {
+				panic(err)
+			}
+			km := &keyMat{s, sk, pk, skB, pkB, "keyset"}
+			keys[si] = append(keys[si], km)
+			o.Count("keygen/keyset/" + s.short())
+			// the reference recomputes the root from the three seeds the library drew
+			if s.fast || hlib.Thorough() {
+				o.Emit(fmt.Sprintf("!G slhkeygen %s %s %s %s", s.name, hlib.Tok(skB[:s.n]), hlib.Tok(skB[s.n:2*s.n]), hlib.Tok(skB[2*s.n:3*s.n])),
+					"ok "+hlib.Tok(skB)+" "+hlib.Tok(pkB), true)
+			}
+		}
+	}
+	lap("keys")
+
+	// ---------- 3. signatures ----------
+	nSig := hlib.N(12, 120)
+	nMut := hlib.N(4, 30)
+	var jobs []*sigJob
+	perSet := make([][]*sigJob, len(sets))
+	// one s-set gets a byte-for-byte signature comparison in the quick tier (2.5-4.5 s in the reference)
+	slowEq := []int{0, 1, 4, 5, 8, 9}[rng.Intn(6)]
+	for si, s := range sets {
+		nEq := 0
+		if s.fast {
+			nEq = hlib.N(2, 12)
+		} else if hlib.Thorough() {
+			nEq = 2
+		} else if si == slowEq {
+			nEq = 1
+		}
+		for i := 0; i < nSig; i++ {
+			j := &sigJob{set: s, key: keys[si][rng.Intn(len(keys[si]))]}
+			switch {
+			case i == 0:
+				j.msg = []byte{}
+			case i == 1:
+				j.msg = rng.Bytes(200)
+			case i == 2:
+				j.msg = rng.Bytes(1)
+			default:
+				j.msg = rng.Bytes(rng.Intn(201))
+			}
+			switch rng.Intn(6) {
+			case 0, 1:
+				j.ctx = []byte{}
+			case 2:
+				j.ctx = rng.Bytes(1)
+			case 3:
+				j.ctx = rng.Bytes(255)
+			case 4:
+				j.ctx = rng.Bytes(1 + rng.Intn(32))
+			default:
+				j.ctx = rng.Bytes(rng.Intn(256))
+			}
+			// modes: the rand-consuming ones run on the main goroutine; s-sets get few of them
+			switch {
+			case i%12 == 0:
+				j.mode, j.ctx, j.id = "tink-T", []byte{}, rng.KeyID()
+			case i%12 == 6:
+				j.mode, j.ctx = "tink-R", []byte{}
+			case i%12 == 3 || (s.fast && i%3 == 1):
+				j.mode = "api-hedged"
+			case i%2 == 0:
+				j.mode = "api-det"
+			default:
+				j.mode, j.addrnd = "hook-hedged", rng.Bytes(s.n)
+			}
+			if (j.mode == "api-det" || j.mode == "hook-hedged") && nEq > 0 {
+				j.byteEq = true
+				nEq--
+			}
+			j.mutate = i < nMut
+			jobs = append(jobs, j)
+			perSet[si] = append(perSet[si], j)
+		}
+	}
+	// slow sets first; a rand-consuming job is started only after its predecessor has drawn its bytes
+	var order []*sigJob
+	for _, fast := range []bool{false, true} {
+		for _, j := range jobs {
+			if j.set.fast == fast {
+				order = append(order, j)
+			}
+		}
+	}
+	nw := runtime.NumCPU()
+	readsBefore, nRandy, prepReads := rd.count(), 0, 0
+	sem := make(chan struct{}, nw)
+	var wg sync.WaitGroup
+	for _, j := range order {
+		r0 := rd.count()
+		j.prepare()
+		prepReads += rd.count() - r0
+		sem <- struct{}{}
+		wg.Add(1)
+		done := make(chan struct{})
+		select {
+		case <-rd.sig:
+		default:
+		}
+		go func() {
+			defer wg.Done()
+			j.run()
+			close(done)
+			<-sem
+		}()
+		if j.needsRand() {
+			nRandy++
+			select {
+			case <-rd.sig:
+			case <-done:
+			}
+		}
+	}
+	wg.Wait()
+	if got := rd.count() - readsBefore - prepReads; got != nRandy {
+		o.Violate("hedged signing is expected to read crypto/rand once per signature: %d reads, %d signatures", got, nRandy)
+	}
+	lap("all signatures")
+
+	// ---------- 4. emit ----------
+	for si, s := range sets {
+		for ji, j := range perSet[si] {
+			o.Case()
+			cat := s.short() + "/" + j.mode
+			if j.err != nil {
+				o.Violate("%s: signing failed (%s): %v", s.name, j.mode, j.err)
+				continue
+			}
+			mp := fmtMsg(j.ctx, j.msg)
+			o.Emit(fmt.Sprintf("!G slhfmt %s %s", hlib.Tok(j.ctx), hlib.Tok(j.msg)), "ok "+hlib.Tok(mp), false)
+			if len(j.raw) != s.sigLen() {
+				o.Violate("%s: signature has %d bytes, FIPS 205 says %d", s.name, len(j.raw), s.sigLen())
+			}
+			// Go's own verdicts
+			goV := j.key.pk.Verify(j.msg, j.raw, j.ctx)
+			if goV != nil {
+				o.Violate("%s: Verify rejects the output of %s (msg=%s ctx=%s)", s.name, j.mode, hlib.Tok(j.msg), hlib.Tok(j.ctx))
+			}
+			if e := j.key.pk.VerifVerifyInternal(mp, j.raw); (e == nil) != (goV == nil) {
+				o.Violate("%s: Verify and verifyInternal on 00|len(ctx)|ctx|msg disagree", s.name)
+			}
+			if j.verifier != nil {
+				if e := j.verifier.Verify(j.full, j.msg); e != nil {
+					o.Violate("%s: tink Verifier rejects the tink Signer's output (%s)", s.name, j.mode)
+				}
+				want := []byte{}
+				if j.mode == "tink-T" {
+					want = []byte{1, byte(j.id >> 24), byte(j.id >> 16), byte(j.id >> 8), byte(j.id)}
+				}
+				if !bytes.Equal(j.full[:len(j.full)-len(j.raw)], want) {
+					o.Violate("%s: %s signature prefix is %x, want %x", s.name, j.mode, j.full[:len(j.full)-len(j.raw)], want)
+				}
+			}
+			o.Count("sig/" + cat)
+			o.Count(fmt.Sprintf("sig/msglen/%03d-%03d", len(j.msg)/50*50, len(j.msg)/50*50+49))
+			switch {
+			case len(j.ctx) == 0:
+				o.Count("sig/ctx/empty")
+			case len(j.ctx) == 255:
+				o.Count("sig/ctx/255")
+			default:
+				o.Count("sig/ctx/1..254")
+			}
+			o.Emit(fmt.Sprintf("!G slhverify %s %s %s %s", s.name, hlib.Tok(j.key.pkB), hlib.Tok(mp), hlib.Tok(j.raw)), b01(goV), true)
+			o.Count("verify/genuine/" + map[bool]string{true: "accept", false: "REJECT"}[goV == nil])
+			if j.byteEq {
+				addrnd := j.addrnd
+				if j.mode == "api-det" {
+					addrnd = j.key.pkB[:s.n]
+				}
+				o.Count("sign-bytes-equal/" + cat)
+				o.Emit(fmt.Sprintf("!G slhsign %s %s %s %s", s.name, hlib.Tok(j.key.skB), hlib.Tok(mp), hlib.Tok(addrnd)), "ok "+hlib.Tok(j.raw), true)
+			}
+			if j.mode == "api-det" && ji%4 == 0 {
+				// determinism of the deterministic variant (cheap sets only)
+				if s.fast {
+					again, _ := j.key.sk.SignDeterministic(j.msg, j.ctx)
+					if !bytes.Equal(again, j.raw) {
+						o.Violate("%s: SignDeterministic is not deterministic", s.name)
+					}
+				}
+			}
+			if j.mutate {
+				other := perSet[si][(ji+1)%len(perSet[si])]
+				mutations(o, rng, si, j, other, keys[si])
+			}
+		}
+		// contexts longer than 255 bytes are refused on both sides
+		o.Case()
+		long := rng.Bytes(256 + rng.Intn(3))
+		msg := rng.Bytes(rng.Intn(40))
+		k0 := keys[si][0]
+		_, e1 := k0.sk.SignDeterministic(msg, long)
+		e2 := k0.pk.Verify(msg, make([]byte, s.sigLen()), long)
+		if s.fast {
+			if _, e3 := k0.sk.Sign(msg, long); e3 == nil {
+				e1 = nil
+			}
+		}
+		res := "err"
+		if e1 == nil || e2 == nil {
+			res = "ok accepted-a-long-context"
+		}
+		o.Count("ctx-too-long")
+		o.Emit(fmt.Sprintf("!G slhfmt %s %s", hlib.Tok(long), hlib.Tok(msg)), res, true)
+	}
+	lap("emit")
+}
+
+// ---------- mutation stream ----------
+
+type mut struct {
+	kind string
+	pk   []byte
+	set  *pset
+	msg  []byte
+	ctx  []byte
+	sig  []byte
+}
+
+func flipAt(rng *hlib.Rng, sig []byte, off int) []byte {
+	c := append([]byte(nil), sig...)
+	c[off] ^= byte(1 + rng.Intn(255))
+	return c
+}
+
+func pickEdge(rng *hlib.Rng, n int, edges ...int) int {
+	if rng.Chance(50) {
+		return edges[rng.Intn(len(edges))]
+	}
+	return rng.Intn(n)
+}
+
+func mutations(o *hlib.Out, rng *hlib.Rng, si int, j, other *sigJob, ks []*keyMat) {
+	s := j.set
+	n, a, k, d, hp, wl := s.n, s.a, s.k, s.d, s.hp, s.wlen()
+	sig := j.raw
+	var ms []mut
+	add := func(kind string, sg []byte) { ms = append(ms, mut{kind, j.key.pkB, s, j.msg, j.ctx, sg}) }
+	if len(sig) == s.sigLen() {
+		add("R", flipAt(rng, sig, rng.Intn(n)))
+		for r := 0; r < 2; r++ {
+			i := pickEdge(rng, k, 0, k-1)
+			add("fors-secret", flipAt(rng, sig, n+i*(1+a)*n+rng.Intn(n)))
+			i = pickEdge(rng, k, 0, k-1)
+			ja := pickEdge(rng, a, 0, a-1)
+			add("fors-auth", flipAt(rng, sig, n+i*(1+a)*n+(1+ja)*n+rng.Intn(n)))
+			layer := pickEdge(rng, d, 0, d-1)
+			chain := pickEdge(rng, wl, 0, 2*n-1, 2*n, wl-1)
+			add(fmt.Sprintf("wots-chain/%s", layerName(layer, d)), flipAt(rng, sig, s.htOff()+layer*s.xmssSize()+chain*n+rng.Intn(n)))
+			layer = pickEdge(rng, d, 0, d-1)
+			jx := pickEdge(rng, hp, 0, hp-1)
+			add(fmt.Sprintf("xmss-auth/%s", layerName(layer, d)), flipAt(rng, sig, s.htOff()+layer*s.xmssSize()+wl*n+jx*n+rng.Intn(n)))
+		}
+		add("last-byte", flipAt(rng, sig, len(sig)-1))
+		c := append([]byte(nil), sig...)
+		c[rng.Intn(len(c))] ^= 1 << uint(rng.Intn(8))
+		add("bit-anywhere", c)
+		// two XMSS layers exchanged
+		if d >= 2 {
+			c = append([]byte(nil), sig...)
+			l1 := rng.Intn(d - 1)
+			x := s.xmssSize()
+			tmp := append([]byte(nil), c[s.htOff()+l1*x:s.htOff()+(l1+1)*x]...)
+			copy(c[s.htOff()+l1*x:], c[s.htOff()+(l1+1)*x:s.htOff()+(l1+2)*x])
+			copy(c[s.htOff()+(l1+1)*x:], tmp)
+			add("swap-layers", c)
+		}
+	}
+	add("truncate-1", append([]byte(nil), sig[:len(sig)-1]...))
+	add("extend-1", append(append([]byte(nil), sig...), byte(rng.Intn(256))))
+	add("drop-first", append([]byte(nil), sig[1:]...))
+	add("truncate-n", append([]byte(nil), sig[:len(sig)-n]...))
+	add("empty", []byte{})
+	if other.err == nil && !bytes.Equal(other.raw, sig) && other.key == j.key {
+		add("signature-of-other-message", other.raw)
+	}
+	// message / context
+	m2 := append([]byte(nil), j.msg...)
+	if len(m2) == 0 || rng.Chance(30) {
+		m2 = append(m2, byte(rng.Intn(256)))
+	} else {
+		m2[rng.Intn(len(m2))] ^= 1 << uint(rng.Intn(8))
+	}
+	ms = append(ms, mut{"other-message", j.key.pkB, s, m2, j.ctx, sig})
+	c2 := append([]byte(nil), j.ctx...)
+	if len(c2) == 0 || (rng.Chance(30) && len(c2) < 255) {
+		c2 = append(c2, byte(rng.Intn(256)))
+	} else {
+		c2[rng.Intn(len(c2))] ^= 1 << uint(rng.Intn(8))
+	}
+	ms = append(ms, mut{"other-context", j.key.pkB, s, j.msg, c2, sig})
+	if len(j.ctx) > 0 && len(j.msg) > 0 {
+		// same concatenation ctx|msg, split elsewhere
+		ms = append(ms, mut{"context-boundary-moved", j.key.pkB, s, append(append([]byte{}, j.ctx[len(j.ctx)-1:]...), j.msg...), j.ctx[:len(j.ctx)-1], sig})
+	}
+	// keys
+	pkSeedFlip := flipAt(rng, j.key.pkB, rng.Intn(n))
+	ms = append(ms, mut{"pk-seed-flipped", pkSeedFlip, s, j.msg, j.ctx, sig})
+	pkRootFlip := flipAt(rng, j.key.pkB, n+rng.Intn(n))
+	ms = append(ms, mut{"pk-root-flipped", pkRootFlip, s, j.msg, j.ctx, sig})
+	for _, ok := range ks {
+		if ok != j.key {
+			ms = append(ms, mut{"other-key", ok.pkB, s, j.msg, j.ctx, sig})
+			break
+		}
+	}
+	ms = append(ms, mut{"other-hash-family", j.key.pkB, sibling(si), j.msg, j.ctx, sig})
+
+	for _, m := range ms {
+		pk, err := m.set.p.DecodePublicKey(m.pk)
+		if err != nil {
+			panic(err)
+		}
+		var e error
+		if p := hlib.Recover(func() { e = pk.Verify(m.msg, m.sig, m.ctx) }); p != "" {
+			o.Violate("%s: Verify panics on a %s mutation: %s", s.name, m.kind, p)
+			e = fmt.Errorf("panic")
+		}
+		if e == nil {
+			o.Violate("%s: Verify ACCEPTS a %s mutation (pk=%s msg=%s ctx=%s sig=%s...)", m.set.name, m.kind, hlib.Tok(m.pk), hlib.Tok(m.msg), hlib.Tok(m.ctx), hlib.Tok(m.sig[:min(len(m.sig), 48)]))
+		}
+		o.Count("mut/" + m.kind + "/" + map[bool]string{true: "ACCEPT", false: "reject"}[e == nil])
+		o.Count("mut-per-set/" + s.short())
+		o.Emit(fmt.Sprintf("!G slhverify %s %s %s %s", m.set.name, hlib.Tok(m.pk), hlib.Tok(fmtMsg(m.ctx, m.msg)), hlib.Tok(m.sig)), b01(e), true)
+	}
+
+	// the tink layer: prefix handling of the Verifier obtained from the keyset
+	if j.verifier != nil {
+		type tm struct {
+			kind string
+			sig  []byte
+		}
+		var ts []tm
+		if j.mode == "tink-T" {
+			for b := 0; b < 5; b++ {
+				c := append([]byte(nil), j.full...)
+				c[b] ^= 1 << uint(rng.Intn(8))
+				ts = append(ts, tm{"tink/prefix-byte-flipped", c})
+			}
+			ts = append(ts, tm{"tink/prefix-missing", j.raw})
+			c := append([]byte(nil), j.full...)
+			c[0] = 0
+			ts = append(ts, tm{"tink/crunchy-prefix", c})
+		} else {
+			ts = append(ts, tm{"tink/prefix-added-to-raw", append([]byte{1, 0, 0, 0, byte(rng.Intn(256))}, j.raw...)})
+		}
+		ts = append(ts, tm{"tink/body-flipped", flipAt(rng, j.full, len(j.full)-1-rng.Intn(len(j.raw)))})
+		ts = append(ts, tm{"tink/truncate-1", j.full[:len(j.full)-1]})
+		ts = append(ts, tm{"tink/empty", []byte{}})
+		for _, t := range ts {
+			var e error
+			if p := hlib.Recover(func() { e = j.verifier.Verify(t.sig, j.msg) }); p != "" {
+				o.Violate("%s: tink Verifier panics on %s: %s", s.name, t.kind, p)
+				continue
+			}
+			o.Count("mut/" + t.kind + "/" + map[bool]string{true: "ACCEPT", false: "reject"}[e == nil])
+			if e == nil {
+				o.Violate("%s: tink Verifier ACCEPTS %s", s.name, t.kind)
+			}
+			// what the reference says about the bytes after the key's prefix length, as a raw signature
+			pl := len(j.full) - len(j.raw)
+			if len(t.sig) >= pl && bytes.Equal(t.sig[:pl], j.full[:pl]) {
+				o.Emit(fmt.Sprintf("!G slhverify %s %s %s %s", s.name, hlib.Tok(j.key.pkB), hlib.Tok(fmtMsg(nil, j.msg)), hlib.Tok(t.sig[pl:])), b01(e), true)
+			}
+		}
+		if e := j.verifier.Verify(j.full, append(append([]byte{}, j.msg...), 0)); e == nil {
+			o.Violate("%s: tink Verifier accepts message|00", s.name)
+		}
+	}
+}
+
+func layerName(l, d int) string {
+	switch l {
+	case 0:
+		return "bottom"
+	case d - 1:
+		return "top"
+	}
+	return "middle"
+}
+
+// ---------- support functions through the export hooks ----------
+
+func u32s(xs []uint32) string {
+	ss := make([]string, len(xs))
+	for i, x := range xs {
+		ss[i] = strconv.FormatUint(uint64(x), 10)
+	}
+	return strings.Join(ss, ",")
+}
+
+func pattern(rng *hlib.Rng, n int) []byte {
+	switch rng.Intn(8) {
+	case 0:
+		return make([]byte, n)
+	case 1:
+		return bytes.Repeat([]byte{0xff}, n)
+	case 2:
+		b := make([]byte, n)
+		if n > 0 {
+			b[0] = 0x80
+		}
+		return b
+	case 3:
+		b := make([]byte, n)
+		if n > 0 {
+			b[n-1] = 1
+		}
+		return b
+	case 4:
+		return bytes.Repeat([]byte{0xaa}, n)
+	}
+	return rng.Bytes(n)
+}
+
+func support(o *hlib.Out, rng *hlib.Rng) {
+	// toInt: all lengths the uint64 result can hold; the library reads the first n bytes of x
+	o.Case()
+	for i := 0; i < hlib.N(150, 3000); i++ {
+		n := rng.Intn(9)
+		if rng.Chance(50) {
+			n = rng.Pick(1, 2, 7, 8) // the lengths the twelve sets use for leaf and tree index
+		}
+		x := pattern(rng, n)
+		extra := 0
+		if rng.Chance(25) {
+			extra = 1 + rng.Intn(4)
+		}
+		var v uint64
+		if p := hlib.Recover(func() { v = islh.VerifToInt(append(append([]byte{}, x...), rng.Bytes(extra)...), uint32(n)) }); p != "" {
+			o.Violate("toInt panics on %x, n=%d: %s", x, n, p)
+			continue
+		}
+		o.Count(fmt.Sprintf("toInt/n=%d", n))
+		o.Emit("!G slhtoint "+hlib.Tok(x), strconv.FormatUint(v, 10), true)
+	}
+	// toByte
+	o.Case()
+	for i := 0; i < hlib.N(150, 3000); i++ {
+		var x uint32
+		switch rng.Intn(6) {
+		case 0:
+			x = uint32(rng.Pick(0, 1, 255, 256, 65535, 65536, 1<<24-1, 1<<24))
+		case 1:
+			x = 0xffffffff - uint32(rng.Intn(2))
+		case 2:
+			x = uint32(rng.Intn(15 * 64 * 2)) // WOTS+ checksums (before the shift) are below len1*(w-1)
+		case 3:
+			x = uint32(rng.Intn(15*64*2)) << 4 // and shifted by 4 for len2*lgw = 12 bits
+		default:
+			x = uint32(rng.U64())
+		}
+		n := rng.Pick(0, 1, 2, 2, 2, 3, 4, 5, 8, 12, 32)
+		var b []byte
+		if p := hlib.Recover(func() { b = islh.VerifToByte(x, uint32(n)) }); p != "" {
+			o.Violate("toByte panics on %d, n=%d: %s", x, n, p)
+			continue
+		}
+		o.Count(fmt.Sprintf("toByte/n=%d", n))
+		o.Emit(fmt.Sprintf("!G slhtobyte %d %d", x, n), hlib.Tok(b), true)
+	}
+	// base_2^b for every (b, outLen) of the twelve sets, then other widths
+	type bo struct{ b, out int }
+	var used []bo
+	seen := map[bo]bool{}
+	for _, s := range sets {
+		for _, p := range []bo{{4, 2 * s.n}, {4, 3}, {s.a, s.k}} {
+			if !seen[p] {
+				seen[p] = true
+				used = append(used, p)
+			}
+		}
+	}
+	o.Case()
+	for _, p := range used {
+		for i := 0; i < hlib.N(14, 250); i++ {
+			need := (p.out*p.b + 7) / 8
+			x := pattern(rng, need)
+			if rng.Chance(20) {
+				x = append(x, rng.Bytes(1+rng.Intn(3))...) // longer inputs: the tail is ignored
+			}
+			var r []uint32
+			if pn := hlib.Recover(func() { r = islh.VerifBase2b(x, uint32(p.b), uint32(p.out)) }); pn != "" {
+				o.Violate("base2b panics on %x, b=%d, outLen=%d: %s", x, p.b, p.out, pn)
+				continue
+			}
+			o.Count(fmt.Sprintf("base2b/b=%d,out=%d", p.b, p.out))
+			o.Emit(fmt.Sprintf("!G slhbase2b %s %d %d", hlib.Tok(x), p.b, p.out), u32s(r), true)
+		}
+	}
+	for i := 0; i < hlib.N(60, 1500); i++ {
+		b := 1 + rng.Intn(16)
+		out := 1 + rng.Intn(40)
+		x := pattern(rng, (out*b+7)/8)
+		var r []uint32
+		if pn := hlib.Recover(func() { r = islh.VerifBase2b(x, uint32(b), uint32(out)) }); pn != "" {
+			o.Violate("base2b panics on %x, b=%d, outLen=%d: %s", x, b, out, pn)
+			continue
+		}
+		o.Count("base2b/other-widths")
+		o.Emit(fmt.Sprintf("!G slhbase2b %s %d %d", hlib.Tok(x), b, out), u32s(r), true)
+	}
+	// the digest split as performed inside verifyInternal and signInternal: the message hash is
+	// replaced by a function returning the chosen digest and the ADRS handed to the FORS code is read
+	for _, s := range sets {
+		o.Case()
+		for i := 0; i < hlib.N(16, 300); i++ {
+			dg := pattern(rng, s.m)
+			if i >= 4 {
+				dg = rng.Bytes(s.m)
+				if rng.Chance(30) { // extreme index bytes, random md
+					copy(dg[s.mdLen():], pattern(rng, s.m-s.mdLen()))
+				}
+			}
+			side := "verify"
+			var r islh.VerifSplit
+			var pn string
+			if i%2 == 1 && (s.fast || i%8 == 1 || hlib.Thorough()) {
+				side = "sign"
+				pn = hlib.Recover(func() { r = s.p.VerifSplitSign(dg) })
+			} else {
+				pn = hlib.Recover(func() { r = s.p.VerifSplitVerify(dg) })
+			}
+			if pn != "" {
+				o.Violate("%s: %sInternal panics with digest %x: %s", s.name, side, dg, pn)
+				continue
+			}
+			if !r.Complete || r.TreeHi != 0 {
+				o.Violate("%s: %sInternal with digest %x: FORS addresses inconsistent (%+v)", s.name, side, dg, r)
+				continue
+			}
+			o.Count("split/" + side + "/" + s.short())
+			md := dg[:s.mdLen()]
+			o.Emit(fmt.Sprintf("!G slhsplit %s %s", s.name, hlib.Tok(dg)), fmt.Sprintf("%s %d %d", hlib.Tok(md), r.IdxTree, r.IdxLeaf), true)
+			o.Emit(fmt.Sprintf("!G slhbase2b %s %d %d", hlib.Tok(md), s.a, s.k), u32s(r.Indices), true)
+		}
+	}
 }
